@@ -255,6 +255,14 @@ Section Spec.
                | _, _ => []
                end) ffs fs).
 
+  (** the members of an object in positional order (the msgpack-rpc parameter array) *)
+  Definition spositional (ffs : list dfield) (fs : list dval) : list jv :=
+    (fix go (ffs : list dfield) (fs : list dval) {struct fs} : list jv :=
+       match ffs, fs with
+       | f :: r, x :: s => senc (dmulti f) (df_ty f) x :: go r s
+       | _, _ => []
+       end) ffs fs.
+
   (** ** the reference leaf reader (for response documents): accepts every conventional form *)
   Definition sleaf_dec (nillable : bool) (k : lkind) (j : jv) : out dval :=
     match j with
@@ -295,6 +303,27 @@ Section Calls.
   (** {method name: members of the in_message} *)
   Definition sreq (s : dsig) (args : list dval) : jv :=
     JMap [(skey c st (sg_name s), sbody c (ext_universe U s) st (sg_params s) args)].
+
+  (** msgpack-rpc: [0, msgid, method, params] with positional parameters;
+      the answer is [1, msgid, nil, result] *)
+  Definition srpc_req (msgid : jv) (s : dsig) (args : list dval) : jv :=
+    JList [JInt 0; msgid; skey c st (sg_name s);
+           JList (spositional c (ext_universe U s) st (sg_params s) args)].
+
+  Definition srpc_resp (s : dsig) (rets : list dval) : jv :=
+    JList [JInt 1; JInt 0; JNull;
+           senc c (ext_universe U s) st false (DRef (out_cid U)) (DObj (out_cid U) rets)].
+
+  Definition srpc_resp_dec (fuel : nat) (s : dsig) (j : jv) : out (list dval) :=
+    match j with
+    | JList [JInt 1; _; JNull; body] =>
+        do o <- d2o_gen c (ext_universe U s) (sleaf_dec c) fuel (DRef (out_cid U)) body;
+        match o with
+        | DObj _ rets => Ok rets
+        | _ => VFault
+        end
+    | _ => VFault
+    end.
 
   (** the conventional response document: the bare value of a single result when
       wrappers are ignored, else the out_message object *)
